@@ -163,6 +163,38 @@ def opTrack (j : Json) : R Json := do
                                  ("decreased", decide (s'.version < acc.1.version))]])) (s0, [])
   pure (Json.mkObj [("steps", Json.arr steps.toArray)])
 
+open Edxml.Ont in
+def ontologyOf (j : Json) : R OntologyDef := do
+  pure { objectTypes := ← (← fldArr j "objectTypes").mapM objectTypeOf,
+         concepts := ← (← fldArr j "concepts").mapM conceptOf,
+         eventTypes := ← (← fldArr j "eventTypes").mapM eventTypeOf,
+         sources := ← (← fldArr j "sources").mapM conceptOf }
+
+open Edxml.Ont in
+/-- Fold a sequence of ontologies with `update`; report for every element which input ontology its
+definition is equal to (the first such index), or the step at which the update failed. -/
+def opUpdate (j : Json) : R Json := do
+  let onts ← (← fldArr j "onts").mapM ontologyOf
+  match onts with
+  | [] => throw "no ontologies"
+  | first :: rest =>
+    let mut cur := first
+    let mut step : Nat := 0
+    for o in rest do
+      step := step + 1
+      match updateOntology cur o with
+      | .ok r => cur := r
+      | .error _ => return Json.mkObj [("err", "EDXMLOntologyValidationError"), ("step", step)]
+    let origin {α : Type} [DecidableEq α] (sel : OntologyDef → List α) (x : α) : Json :=
+      match (List.range onts.length).find? (fun i => match onts[i]? with | some o => (sel o).contains x | none => false) with
+      | some i => (i : Json)
+      | none => Json.null
+    pure (Json.mkObj [
+      ("objectTypes", Json.arr (cur.objectTypes.map fun x => jPair x.name (origin (·.objectTypes) x)).toArray),
+      ("concepts", Json.arr (cur.concepts.map fun x => jPair x.name (origin (·.concepts) x)).toArray),
+      ("eventTypes", Json.arr (cur.eventTypes.map fun x => jPair x.name (origin (·.eventTypes) x)).toArray),
+      ("sources", Json.arr (cur.sources.map fun x => jPair x.name (origin (·.sources) x)).toArray)])
+
 def natList (j : Json) : R (List Nat) := do (← arr j).mapM fun x => x.getNat?
 
 def itemOf (j : Json) : R Item := do
@@ -223,6 +255,7 @@ def dispatch (j : Json) : R Json := do
   | "equiv" => opEquiv j
   | "cmp" => opCmp j
   | "track" => opTrack j
+  | "update" => opUpdate j
   | x => throw s!"unknown op {x}"
 
 partial def loop (inp out : IO.FS.Stream) : IO Unit := do
